@@ -73,10 +73,10 @@ pub fn run<P: Pat>(args: &Args) -> Value {
     let timeout = args.num("timeout", 30);          // short: a paused peer is waited for in vain
     let stride = args.num("stride", 1) as usize;
     let max_k = args.num("maxk", 100_000) as usize;
-    let tag = args.get_or("tag", "");
+    let tag = util::run_token(args);
     let only = args.get("scenario");
     let mut out = TraceWriter::create(&args.get("out").expect("--out"));
-    let sh = Arc::new(Shared::open(&format!("{root}/sched-{}.shared", P::NAME), true));
+    let sh = Arc::new(Shared::open(&format!("{root}/sched-{}-{tag}.shared", P::NAME), true));
     let name: ServiceName = "c06/svc".try_into().unwrap();
     let plain = cfg_set(P::NAME, false).plain_opener;
     let set = Arc::new(cfg_set(P::NAME, false).cfgs);
@@ -99,7 +99,7 @@ pub fn run<P: Pat>(args: &Args) -> Value {
             let mut k = 0usize;
             loop {
                 let config = util::make_config(
-                    &format!("{root}/x{}_{si}", P::NAME),
+                    &format!("{root}/x{}{tag}_{si}", P::NAME),
                     &format!("c6{tag}x{}{si}_", P::NAME),
                     timeout,
                 );
